@@ -554,7 +554,8 @@ pub fn map_draw_strategy(max_samples: usize) -> impl Strategy<Value = MapDraw> {
         prop::collection::vec(any::<u8>(), max_samples),
         0usize..=4,
         any::<u8>(),
-        prop::collection::vec("[A-Za-z0-9_.][A-Za-z0-9_.-]{0,5}", 4),
+        // labels may contain inner spaces (the samples file is tab-delimited, the inline list is split on ',' and '=')
+        prop::collection::vec(prop_oneof![2 => "[A-Za-z0-9_.][A-Za-z0-9_.-]{0,5}".prop_map(|s| s).boxed(), 1 => "[A-Za-z0-9_.]{1,4}".prop_map(|s| format!("pop {s}")).boxed(), 1 => "[A-Za-z0-9_.]{1,3}".prop_map(|s| format!("{s} sp. nov")).boxed()], 4),
         any::<bool>(),
         any::<u8>(),
     )
